@@ -1,1 +1,407 @@
-fn main() {}
+//! C34 — test configuration comes from the leading comment block.
+//!
+//! The real `crates/test/src/config.rs` (a private module of wit-bindgen-test) is
+//! compiled into this harness through build.rs.  Random files mix marker lines,
+//! blank lines, code and later marker lines.
+//!
+//! Oracle (written from the statement): reference text = the file's leading
+//! lines that start with the marker, marker removed, joined with '\n'; nothing
+//! after the first other line.  The reference text is parsed with the same `toml`
+//! crate into the same config type and into a generic `toml::Table`; the real
+//! `parse_test_config` result must agree field by field.  A whitespace separated
+//! argument string must mean the same as the list of its words
+//! (`Vec<String>::from(StringList)`), words being computed here.
+use corelib_mon::{clip, fan_out, only_case};
+use serde_json::json;
+use std::collections::HashMap;
+use vkit::{Args, Report, Rng};
+
+include!(concat!(env!("OUT_DIR"), "/config_mod.rs"));
+use config::{parse_test_config, RuntimeTestConfig, StringList, WitConfig};
+
+const MARKERS: &[&str] = &["//@", ";;@", "#@", "--@"];
+
+#[derive(Clone, Debug)]
+struct FileCase {
+    marker: &'static str,
+    lines: Vec<String>,
+    /// class letter per line (for the distinct key)
+    classes: String,
+    final_newline: bool,
+    wit: bool,
+}
+
+fn words_value(rng: &mut Rng) -> Vec<String> {
+    const W: &[&str] = &["--foo", "--bar", "-O", "-Wasync", "x=y", "a,b", "é✓", "--async=all", "-", "--with", "a:b/c=d", "#x", "[y]"];
+    let n = rng.range(0, 4);
+    (0..n).map(|_| rng.pick(W).to_string()).collect()
+}
+
+fn sep(rng: &mut Rng) -> &'static str {
+    *rng.pick(&[" ", " ", "  ", "\t", " \t ", "   "])
+}
+
+/// a TOML string (single line) holding the words separated by blanks
+fn toml_words_string(rng: &mut Rng, ws: &[String]) -> String {
+    let mut s = String::new();
+    if rng.chance(1, 4) {
+        s.push_str(sep(rng));
+    }
+    for (i, w) in ws.iter().enumerate() {
+        if i > 0 {
+            s.push_str(sep(rng));
+        }
+        s.push_str(w);
+    }
+    if rng.chance(1, 4) {
+        s.push_str(sep(rng));
+    }
+    if s.contains('\t') || rng.chance(1, 2) {
+        format!("\"{}\"", s.replace('\\', "\\\\").replace('"', "\\\"").replace('\t', "\\t"))
+    } else {
+        format!("'{s}'")
+    }
+}
+
+fn toml_list(ws: &[String], rng: &mut Rng) -> String {
+    let q = if rng.chance(1, 2) { '\'' } else { '"' };
+    format!("[{}]", ws.iter().map(|w| format!("{q}{w}{q}")).collect::<Vec<_>>().join(if rng.chance(1, 2) { ", " } else { "," }))
+}
+
+fn string_list_value(rng: &mut Rng) -> String {
+    let ws = words_value(rng);
+    if rng.chance(1, 2) {
+        toml_words_string(rng, &ws)
+    } else {
+        toml_list(&ws, rng)
+    }
+}
+
+/// One TOML line for the config block; class letter says what it is.
+fn config_line(rng: &mut Rng, wit: bool, in_lang: &mut bool) -> (String, char) {
+    if wit {
+        match rng.below(12) {
+            0 => ("async = true".into(), 'k'),
+            1 => ("async = false".into(), 'k'),
+            2 => ("error-context = true".into(), 'k'),
+            3 => (format!("default-bindgen-args = {}", rng.chance(1, 2)), 'k'),
+            4 => (format!("runner = '{}'", rng.pick(&["runner", "other", "a b"])), 'k'),
+            5 | 6 => (format!("dependencies = {}", string_list_value(rng)), 's'),
+            7 => ("wac = './compose.wac'".into(), 'k'),
+            8 => ("".into(), 'e'),
+            9 => ("# a toml comment".into(), 'c'),
+            10 => ("unknown-key = 1".into(), 'u'),
+            _ => ("async = ".into(), 'x'),
+        }
+    } else {
+        match rng.below(14) {
+            0..=3 if !*in_lang => (format!("args = {}", string_list_value(rng)), 's'),
+            4 | 5 if !*in_lang => (format!("wasmtime-flags = {}", string_list_value(rng)), 's'),
+            6 => {
+                *in_lang = true;
+                ("[lang]".into(), 't')
+            }
+            7 if *in_lang => (format!("rustflags = {}", string_list_value(rng)), 'l'),
+            8 if *in_lang => (format!("n{} = {}", rng.below(3), rng.below(5)), 'l'),
+            9 => ("".into(), 'e'),
+            10 => ("# comment".into(), 'c'),
+            11 => ("bogus-key = 'x'".into(), 'u'),
+            12 => ("args = [".into(), 'x'),
+            _ => (format!("args = {}", string_list_value(rng)), 's'),
+        }
+    }
+}
+
+fn gen_file(rng: &mut Rng) -> FileCase {
+    let marker = *rng.pick(MARKERS);
+    let wit = rng.chance(1, 3);
+    let mut lines = vec![];
+    let mut classes = String::new();
+    let mut in_lang = false;
+    let lead = match rng.below(8) {
+        0 => 0,
+        1..=4 => rng.range(1, 3),
+        _ => rng.range(2, 6),
+    };
+    let mut used_keys: Vec<String> = vec![];
+    for _ in 0..lead {
+        let (l, c) = config_line(rng, wit, &mut in_lang);
+        // mostly avoid duplicate keys (a duplicate is still a legal case: both sides must fail)
+        let key = l.split('=').next().unwrap_or("").trim().to_string();
+        if c != 'e' && c != 'c' && used_keys.contains(&key) && rng.chance(9, 10) {
+            continue;
+        }
+        used_keys.push(key);
+        let glue = if rng.chance(2, 3) { " " } else { "" };
+        lines.push(format!("{marker}{glue}{l}"));
+        classes.push(c.to_ascii_uppercase());
+    }
+    // multi-line array spread over marker lines
+    if !wit && !in_lang && !used_keys.iter().any(|k| k == "args") && rng.chance(1, 8) {
+        lines.push(format!("{marker} args = ["));
+        lines.push(format!("{marker}   '--multi',"));
+        lines.push(format!("{marker} ]"));
+        classes.push_str("MMM");
+    }
+    // the first other line and what follows
+    let tail = rng.range(0, 6);
+    for i in 0..tail {
+        let roll = rng.below(12);
+        let (l, c): (String, char) = match roll {
+            0 | 1 => ("".into(), 'b'),
+            2 | 3 => (rng.pick(&["include!(\"x\");", "fn main() {}", "package a:b;", "(module)", "int x;"]).to_string(), 'o'),
+            4 => (format!(" {marker} args = 'indented marker'"), 'i'),
+            5 => (format!("{} args = 'not the marker'", &marker[..marker.len() - 1]), 'n'),
+            6 => (format!("x {marker} args = 'marker mid line'"), 'o'),
+            _ => {
+                if i == 0 {
+                    // must be a non-marker line to end the block
+                    ("// plain comment".into(), 'o')
+                } else {
+                    // later marker lines: would change or break the config if they were read
+                    let l = match rng.below(6) {
+                        0 => "args = 'LATER --flag'".to_string(),
+                        1 => "]]] not toml".to_string(),
+                        2 => "[lang]".to_string(),
+                        3 => "async = true".to_string(),
+                        4 => "wasmtime-flags = ['-Wlater']".to_string(),
+                        _ => "runner = 'later'".to_string(),
+                    };
+                    (format!("{marker} {l}"), 'm')
+                }
+            }
+        };
+        lines.push(l);
+        classes.push(c);
+    }
+    FileCase { marker, lines, classes, final_newline: rng.chance(3, 4), wit }
+}
+
+fn contents(f: &FileCase) -> String {
+    let mut s = f.lines.join("\n");
+    if f.final_newline && !f.lines.is_empty() {
+        s.push('\n');
+    }
+    s
+}
+
+/// Reference: leading marker lines, marker removed, joined with '\n'.
+fn reference_text(contents: &str, marker: &str) -> String {
+    let mut out: Vec<&str> = vec![];
+    let mut segs: Vec<&str> = contents.split('\n').collect();
+    if contents.ends_with('\n') {
+        segs.pop();
+    }
+    for l in segs {
+        match l.strip_prefix(marker) {
+            Some(rest) => out.push(rest),
+            None => break,
+        }
+    }
+    out.join("\n")
+}
+
+/// What a reader that used every marker line of the file would see (only used to
+/// name the failure class).
+fn all_marker_text(contents: &str, marker: &str) -> String {
+    contents.split('\n').filter_map(|l| l.strip_prefix(marker)).collect::<Vec<_>>().join("\n")
+}
+
+fn my_words(s: &str) -> Vec<String> {
+    let mut v = vec![];
+    let mut cur = String::new();
+    for c in s.chars() {
+        if c.is_whitespace() {
+            if !cur.is_empty() {
+                v.push(std::mem::take(&mut cur));
+            }
+        } else {
+            cur.push(c);
+        }
+    }
+    if !cur.is_empty() {
+        v.push(cur);
+    }
+    v
+}
+
+fn sl_dbg(l: &StringList) -> String {
+    format!("{l:?}")
+}
+fn sl_words_from_toml(v: Option<&toml::Value>) -> Option<Vec<String>> {
+    match v {
+        None => Some(vec![]),
+        Some(toml::Value::String(s)) => Some(my_words(s)),
+        Some(toml::Value::Array(a)) => a.iter().map(|x| x.as_str().map(|s| s.to_string())).collect(),
+        _ => None,
+    }
+}
+
+fn rt_fields(c: &RuntimeTestConfig) -> serde_json::Value {
+    json!({"args": sl_dbg(&c.args), "wasmtime_flags": sl_dbg(&c.wasmtime_flags), "lang": c.lang.as_ref().map(|m| {
+        let mut v: Vec<String> = m.iter().map(|(k, v)| format!("{k}={v:?}")).collect(); v.sort(); v })})
+}
+fn wit_fields(c: &WitConfig) -> serde_json::Value {
+    json!({"async": c.async_, "error_context": c.error_context, "default_bindgen_args": c.default_bindgen_args, "runner": c.runner,
+           "dependencies": c.dependencies.as_ref().map(sl_dbg), "wac": c.wac, "runner_world": c.runner_world(), "dependency_worlds": c.dependency_worlds()})
+}
+
+fn run_case(rng: &mut Rng, idx: u64, rep: &mut Report, seed: u64) {
+    // --- part 2 on its own: StringList -> Vec<String>
+    {
+        let ws = words_value(rng);
+        let mut s = String::new();
+        for w in &ws {
+            s.push_str(*rng.pick(&[" ", "  ", "\t", "\n", " \t"]));
+            s.push_str(w);
+        }
+        if rng.chance(1, 2) {
+            s.push(' ');
+        }
+        let got: Vec<String> = StringList::String(s.clone()).into();
+        let got_list: Vec<String> = StringList::List(ws.clone()).into();
+        rep.count("stringlist_conversions");
+        if got != my_words(&s) || got_list != ws || got != got_list {
+            rep.violation(
+                "testconfig:string-list-words-differ",
+                &format!("StringList::String({s:?}) converts to {got:?} but its whitespace separated words are {:?}; StringList::List of those words converts to {got_list:?}", my_words(&s)),
+                json!({"seed": seed, "stream": "file", "case": idx, "string": s}),
+            );
+        }
+    }
+
+    let f = gen_file(rng);
+    let text = contents(&f);
+    let reference = reference_text(&text, f.marker);
+    let all = all_marker_text(&text, f.marker);
+    let has_later = all != reference;
+    let replay = json!({"seed": seed, "stream": "file", "case": idx, "marker": f.marker, "contents": text, "reference_toml": reference, "config_type": if f.wit { "WitConfig" } else { "RuntimeTestConfig" }});
+    let classify = |real_fields: &serde_json::Value, real_ok: bool| -> &'static str {
+        // would reading every marker line explain what the real parser returned?
+        if has_later {
+            let alt_ok;
+            let alt_fields;
+            if f.wit {
+                let r = toml::from_str::<WitConfig>(&all);
+                alt_ok = r.is_ok();
+                alt_fields = r.ok().map(|c| wit_fields(&c)).unwrap_or(json!(null));
+            } else {
+                let r = toml::from_str::<RuntimeTestConfig>(&all);
+                alt_ok = r.is_ok();
+                alt_fields = r.ok().map(|c| rt_fields(&c)).unwrap_or(json!(null));
+            }
+            if alt_ok == real_ok && &alt_fields == real_fields {
+                return "testconfig:later-marker-lines-used";
+            }
+        }
+        "testconfig:leading-block-misread"
+    };
+
+    let table: Option<toml::Table> = toml::from_str::<toml::Table>(&reference).ok();
+    let (real_ok, exp_ok, real_fields, exp_fields);
+    let mut generic_mismatch = None;
+    if f.wit {
+        let real = parse_test_config::<WitConfig>(&text, f.marker);
+        let exp = toml::from_str::<WitConfig>(&reference);
+        real_ok = real.is_ok();
+        exp_ok = exp.is_ok();
+        if let (Ok(r), Some(t)) = (&real, &table) {
+            if exp_ok {
+                let deps: Vec<String> = r.dependency_worlds();
+                let want = match t.get("dependencies") {
+                    None => Some(vec!["test".to_string()]),
+                    v => sl_words_from_toml(v),
+                };
+                if want.as_ref() != Some(&deps) {
+                    generic_mismatch = Some(format!("dependency_worlds() = {deps:?} but the block says {want:?}"));
+                }
+                if t.get("async").and_then(|v| v.as_bool()).unwrap_or(false) != r.async_ {
+                    generic_mismatch = Some(format!("async = {} but the block says {:?}", r.async_, t.get("async")));
+                }
+            }
+        }
+        real_fields = real.as_ref().ok().map(wit_fields).unwrap_or(json!(null));
+        exp_fields = exp.as_ref().ok().map(wit_fields).unwrap_or(json!(null));
+    } else {
+        let real = parse_test_config::<RuntimeTestConfig>(&text, f.marker);
+        let exp = toml::from_str::<RuntimeTestConfig>(&reference);
+        real_ok = real.is_ok();
+        exp_ok = exp.is_ok();
+        real_fields = real.as_ref().ok().map(rt_fields).unwrap_or(json!(null));
+        exp_fields = exp.as_ref().ok().map(rt_fields).unwrap_or(json!(null));
+        if let (Ok(r), Some(t)) = (real, &table) {
+            if exp_ok {
+                let args: Vec<String> = r.args.into();
+                let want = sl_words_from_toml(t.get("args"));
+                if want.as_ref() != Some(&args) {
+                    generic_mismatch = Some(format!("args as words = {args:?} but the block says {want:?}"));
+                }
+                let wf: Vec<String> = r.wasmtime_flags.into();
+                let want = sl_words_from_toml(t.get("wasmtime-flags"));
+                if want.as_ref() != Some(&wf) {
+                    generic_mismatch = Some(format!("wasmtime-flags as words = {wf:?} but the block says {want:?}"));
+                }
+                let lang: HashMap<String, toml::Value> = r.lang.unwrap_or_default();
+                let want: HashMap<String, toml::Value> =
+                    t.get("lang").and_then(|v| v.as_table()).map(|t| t.iter().map(|(k, v)| (k.clone(), v.clone())).collect()).unwrap_or_default();
+                if lang != want {
+                    generic_mismatch = Some(format!("lang = {lang:?} but the block says {want:?}"));
+                }
+            }
+        }
+    }
+    rep.eval();
+    rep.count(if exp_ok { "reference_parses" } else { "reference_rejects" });
+    if has_later {
+        rep.count("files_with_later_marker_lines");
+    }
+    if real_ok != exp_ok || real_fields != exp_fields {
+        let sig = classify(&real_fields, real_ok);
+        rep.violation(
+            sig,
+            &format!(
+                "file {:?} with marker {:?}: parse_test_config gave {} but the leading block {:?} gives {}",
+                clip(&text, 300),
+                f.marker,
+                if real_ok { format!("Ok {real_fields}") } else { "Err".to_string() },
+                clip(&reference, 200),
+                if exp_ok { format!("Ok {exp_fields}") } else { "Err".to_string() },
+            ),
+            replay,
+        );
+        return;
+    }
+    if let Some(m) = generic_mismatch {
+        rep.violation(
+            "testconfig:string-list-words-differ",
+            &format!("file {:?} with marker {:?}: {m}", clip(&text, 300), f.marker),
+            replay,
+        );
+        return;
+    }
+    if exp_ok && !reference.trim().is_empty() {
+        rep.distinct(&format!("{}|{}|{}", f.marker, f.wit, f.classes));
+    }
+    if idx < 4 {
+        rep.sample(json!({"marker": f.marker, "contents": text, "reference_toml": reference, "parsed_ok": real_ok, "fields": real_fields}));
+    }
+}
+
+fn main() {
+    let args = Args::parse();
+    let seed = args.seed();
+    let n: u64 = args.u64("n", if args.thorough() { 3_000_000 } else { 60_000 });
+    let mut rep = Report::new(
+        "case = one random file (0..9 leading marker lines of TOML, then other lines incl. later marker lines) parsed as RuntimeTestConfig or WitConfig, \
+         plus one StringList conversion; distinct = (marker, config type, per-line class string) of files whose leading block is non-empty and parses",
+    );
+    rep.assume("the reference parses the reference text with the same toml crate and config types; only the choice of text and the word splitting are judged");
+    rep.assume("files use \\n line ends; argument strings are separated by ASCII blanks, tabs and newlines only");
+    if let Some(i) = only_case(&args) {
+        let mut rng = corelib_mon::case_rng(seed, 34, i);
+        run_case(&mut rng, i, &mut rep, seed);
+    } else {
+        fan_out(&mut rep, seed, 34, n, |rng, i, r| run_case(rng, i, r, seed));
+    }
+    rep.write(&args.out());
+}
